@@ -270,8 +270,11 @@ def deleteAt : Nat → Bytes → Bytes → Bytes × Nat
 
 def findAndDelete (s pat : Bytes) : Bytes × Nat := deleteAt (s.length + 1) pat s
 
-def mockHit (cfg : Cfg) (sig key : Bytes) : Bool :=
-  cfg.pretend.any (fun p => p.2 == key) && ((cfg.pretend.find? (fun p => p.1 == sig)).map (·.2) == some key)
+/-- `key` occurs in a listed (signature, key) pair -/
+def keyListed (cfg : Cfg) (key : Bytes) : Bool := cfg.pretend.any (fun p => p.2 == key)
+/-- (`sig`, `key`) is a listed pair -/
+def pairListed (cfg : Cfg) (sig key : Bytes) : Bool := cfg.pretend.contains (sig, key)
+def mockHit (cfg : Cfg) (sig key : Bytes) : Bool := pairListed cfg sig key
 
 /-- one signature check as CHECKSIG / CHECKSIGVERIFY / CHECKSIGADD perform it: (valid?, new state) -/
 def checkSig (cfg : Cfg) (st : St) (sig key : Bytes) : R (Bool × St) :=
@@ -311,8 +314,8 @@ def matchSigs (cfg : Cfg) (code : Bytes) : List Bytes → List Bytes → R Bool
   | _ :: _, [] => .ok false
   | sig :: sigs, key :: keys => do
     let ok ←
-      if cfg.pretend.any (fun p => p.2 == key) then
-        pure ((cfg.pretend.find? (fun p => p.1 == sig)).map (·.2) == some key)
+      if keyListed cfg key then
+        pure (pairListed cfg sig key)
       else do
         sigEncodingOk cfg sig
         keyEncodingOk cfg key
